@@ -5,7 +5,7 @@ import z3
 from .ty import (INT, BOOL, STR, BYTES, FLOAT, NONE, VAL, ANYFUNC, Ref, ListT, DictT, TupleT,
                  Fl, Val, sort_of, sort_key, is_reflike)
 from . import engine as E
-from .engine import SV, Exc, Unsupported, CLS, I, B, S, fresh
+from .engine import pystr, SV, Exc, Unsupported, CLS, I, B, S, fresh
 
 BUILTIN_TYPES = ('int', 'str', 'bytes', 'list', 'tuple', 'dict', 'float', 'bool', 'slice', 'object', 'type')
 E.BUILTIN_TYPES = BUILTIN_TYPES
@@ -18,7 +18,7 @@ SPEC_FORMS = ('old', 'forall', 'exists', 'implies', 'ite', 'pow2', 'typeis', 'is
               'str_indexof', 'str_at', 'str_suffixof', 'Eq', 'wsonly', 'lstripped', 'val_eq',
               'U', 'app', 'splice', 'Bst', 'appb', 'Bin', 'appbin', 'is_binstr', 'binval',
               'prefix_same', 'outside_same', 'chars_eq', 'allspaces', 'allchar', 'is_bool', 'oval',
-              'isdigits', 'str2int', 'same_dict', 'dval', 'gh', 'ghat', 'same_ghosts', 'npow2', 'asref')
+              'isdigits', 'str2int', 'same_dict', 'dval', 'gh', 'ghat', 'same_ghosts', 'npow2', 'asref', 'allzero_bytes')
 
 
 def eval_call(eng, e, st, ctx):
@@ -283,14 +283,9 @@ def spec_form(eng, e, st, ctx):
             # facts met while evaluating the body (heap well-formedness, definitions of fresh symbols) are assumptions of
             # the model for every position of the range; they are not part of the quantified statement
             wf = z3.Implies(rng, z3.And(extra))
-            wp = index_patterns(wf, c)
-            st.assume(z3.ForAll([c], wf, patterns=wp) if wp else z3.ForAll([c], wf))
+            st.assume(forall_with_patterns(c, wf))
         if name == 'forall':
-            inner = z3.Implies(rng, bz)
-            pats = index_patterns(inner, c)
-            if pats:
-                return SV(BOOL, z3.ForAll([c], inner, patterns=pats))
-            return SV(BOOL, z3.ForAll([c], inner))
+            return SV(BOOL, forall_with_patterns(c, z3.Implies(rng, bz)))
         return SV(BOOL, z3.Exists([c], z3.And([rng, bz])))
     if name == 'implies':
         p = eng.truth(st, ev1(a[0]))
@@ -496,6 +491,16 @@ def spec_form(eng, e, st, ctx):
     raise Unsupported('spec form %s' % name)
 
 
+def forall_with_patterns(c, body):
+    pats = index_patterns(body, c)
+    if pats:
+        try:
+            return z3.ForAll([c], body, patterns=pats)
+        except z3.Z3Exception:
+            pass          # a candidate trigger z3 does not accept (e.g. it contains an if-then-else): let z3 choose
+    return z3.ForAll([c], body)
+
+
 def index_patterns(body, c):
     """Triggers for a bounded quantifier over a list position: the array reads indexed exactly by the bound
     variable (smallest first).  Keeps E-matching from choosing a trigger that never occurs in ground facts."""
@@ -511,7 +516,7 @@ def index_patterns(body, c):
             stack.append(x.body())
             continue
         if z3.is_app_of(x, z3.Z3_OP_SELECT) and x.arg(1).eq(c) and not _mentions(x.arg(0), c):
-            if not _has_bound_var(x.arg(0)):
+            if not _has_bound_var(x.arg(0)) and not _has_connective(x.arg(0)):
                 found[x.get_id()] = x
         stack.extend(x.children())
     pats = sorted(found.values(), key=lambda t: len(str(t)))
@@ -527,6 +532,22 @@ def _mentions(e, c):
             continue
         seen.add(x.get_id())
         if x.eq(c):
+            return True
+        stack.extend(x.children())
+    return False
+
+
+def _has_connective(e):
+    """if-then-else / boolean structure inside a term: not allowed in a trigger"""
+    seen = set()
+    stack = [e]
+    while stack:
+        x = stack.pop()
+        if x.get_id() in seen:
+            continue
+        seen.add(x.get_id())
+        if z3.is_app(x) and x.decl().kind() in (z3.Z3_OP_ITE, z3.Z3_OP_AND, z3.Z3_OP_OR, z3.Z3_OP_NOT, z3.Z3_OP_IMPLIES, z3.Z3_OP_EQ,
+                                                z3.Z3_OP_LE, z3.Z3_OP_LT, z3.Z3_OP_GE, z3.Z3_OP_GT):
             return True
         stack.extend(x.children())
     return False
@@ -644,7 +665,11 @@ def bf_allchar(eng, st, a):
     return SV(BOOL, z3.InRe(a[0].z, z3.Star(z3.Re(a[1].z))))
 
 
-BIT_FORMS = {'prefix_same': bf_prefix_same, 'outside_same': bf_outside_same, 'allspaces': bf_allspaces,
+def bf_allzero_bytes(eng, st, a):
+    return SV(BOOL, z3.InRe(a[0].z, z3.Star(z3.Re(S('\x00')))))
+
+
+BIT_FORMS = {'allzero_bytes': bf_allzero_bytes, 'prefix_same': bf_prefix_same, 'outside_same': bf_outside_same, 'allspaces': bf_allspaces,
              'allchar': bf_allchar, 'U': bf_U, 'app': bf_app, 'splice': bf_splice, 'Bst': bf_Bst, 'appb': bf_appb, 'Bin': bf_Bin,
              'appbin': bf_appbin, 'is_binstr': bf_is_binstr}
 
@@ -929,7 +954,7 @@ def b_getattr(eng, e, st, ctx):
         for st2, nm in eng.ev(e.args[1], st1, ctx):
             ns = z3.simplify(nm.z)
             if z3.is_string_value(ns):
-                name = ns.as_string()
+                name = pystr(ns)
                 if len(e.args) > 2:
                     raise Unsupported('getattr with default')
                 yield st2, eng.get_attr(ctx, st2, obj, name)
@@ -964,7 +989,7 @@ def b_setattr(eng, e, st, ctx):
         obj, nm, val = args
         ns = z3.simplify(nm.z)
         if z3.is_string_value(ns):
-            eng.write_field(ctx, st2, obj, ns.as_string(), val)
+            eng.write_field(ctx, st2, obj, pystr(ns), val)
             yield st2, eng.lit(None)
             continue
         hook = eng.class_hook(obj.ty.cls, 'setattr_dyn')
@@ -1146,7 +1171,7 @@ def mf_object_setattr(eng, e, st, ctx):
         if hook is not None:
             hook(eng, ctx, st2, obj, nm, val)
         elif z3.is_string_value(ns):
-            eng.write_field(ctx, st2, obj, ns.as_string(), val)
+            eng.write_field(ctx, st2, obj, pystr(ns), val)
         else:
             raise Unsupported('object.__setattr__ with symbolic name')
         yield st2, eng.lit(None)
@@ -1160,7 +1185,7 @@ def mf_object_getattribute(eng, e, st, ctx):
         if hook is not None:
             yield st2, hook(eng, ctx, st2, obj, nm)
         elif z3.is_string_value(ns):
-            yield st2, eng.read_field(ctx, st2, obj, ns.as_string())
+            yield st2, eng.read_field(ctx, st2, obj, pystr(ns))
         else:
             raise Unsupported('object.__getattribute__ with symbolic name')
 
@@ -1264,7 +1289,7 @@ def literal_alternatives(s):
     """String term -> [(condition, python str)] if it is a literal or an ite tree over literals."""
     ss = z3.simplify(s)
     if z3.is_string_value(ss):
-        return [(B(True), ss.as_string())]
+        return [(B(True), pystr(ss))]
     if z3.is_app_of(s, z3.Z3_OP_ITE):
         c = s.arg(0)
         a = literal_alternatives(s.arg(1))
@@ -1342,7 +1367,7 @@ def str_method(eng, ctx, st, obj, name, args, kwargs):
     if name == 'join':
         lst = args[0]
         ss = z3.simplify(s)
-        if isinstance(lst.ty, ListT) and lst.ty.elem in (STR, BYTES) and z3.is_string_value(ss) and ss.as_string() == '':
+        if isinstance(lst.ty, ListT) and lst.ty.elem in (STR, BYTES) and z3.is_string_value(ss) and pystr(ss) == '':
             yield st, SV(t, eng.get_ghost(st, 'joined', z3.StringSort(), lst.z))
             return
         raise Unsupported('join')
@@ -1355,8 +1380,8 @@ def str_method(eng, ctx, st, obj, name, args, kwargs):
                 return
         if len(args) == 1 and args[0].ty in (STR, BYTES):
             seps = z3.simplify(args[0].z)
-            if z3.is_string_value(seps) and len(seps.as_string()) >= 1:
-                yield st, str_split(eng, st, obj, seps.as_string())
+            if z3.is_string_value(seps) and len(pystr(seps)) >= 1:
+                yield st, str_split(eng, st, obj, pystr(seps))
                 return
         raise Unsupported('str.split')
     if name == 'encode':
